@@ -30,9 +30,17 @@ MODULES = ["Model.Types", "Generated.C16", "Proofs.Types", "Properties.C16"]
 P = "SqlglotModel.Properties.C16."
 THEOREMS = [P + n for n in [
     "coerce_idem", "coerce_comm", "coerce_assoc", "coerce_cross_chain_first_wins_witness",
-    "leaf_table_agrees", "un_table_agrees", "bin_table_agrees", "tern_table_agrees", "tables_ok",
+    "coerce_decimalP_absorbs", "decimal_params_never_computed", "decimal_arith_engine_class",
+    "leaf_table_agrees", "un_table_exact", "bin_table_exact", "tern_cond_irrelevant", "tern_table_exact", "nary_table_ok", "tables_ok",
+    "depth1_exact_un", "depth1_exact_bin", "depth1_exact_tern", "every_family_inhabited",
     "rel_sound", "class_agrees", "final_class_agrees", "int_never_narrower",
-    "nullif_witness", "nullif_first_arg_agrees", "date_minus_date_witness", "date_plus_interval_witness", "cross_chain_witness",
+    "column_takes_schema_type", "unqualified_column_witness", "byArgs_single", "wrapper_keeps_type",
+    "nullif_witness", "nullif_first_arg_agrees",
+    "null_only_arith_disagrees_witness", "decimal_null_arith_disagrees_witness", "strlit_null_arith_disagrees_witness",
+    "concat_null_disagrees_witness", "date_interval_disagrees_witness", "temporal_diff_disagrees_witness",
+    "mixed_chain_arith_disagrees_witness", "interval_minus_string_disagrees_witness", "mixed_chain_branches_disagrees_witness",
+    "sum_boolean_disagrees_witness", "avg_temporal_disagrees_witness", "ceil_floor_disagrees_witness", "round_disagrees_witness",
+    "corr_disagrees_witness", "nary_accumulators_disagree_witness",
 ]]
 
 # ------------------------------------------------------------------------------------------ the modelled universe
@@ -58,20 +66,22 @@ CAST_SQL = {"boolean": "BOOLEAN", "tinyint": "TINYINT", "smallint": "SMALLINT", 
             "double": "DOUBLE", "decimalP": "DECIMAL(18, 3)", "text": "VARCHAR", "date": "DATE",
             "timestampntz": "TIMESTAMP"}
 
-UN_PLAIN = ["neg", "not", "isNull", "length", "upper", "lower", "abs", "sqrt", "ln", "exp", "sign", "year", "month", "day", "extractYear",
-            "count", "sum", "min", "max", "avg", "sumOver", "maxOver", "countOver", "avgOver"]
+UN_WRAP = ["over", "filter"]  # wrappers around an aggregate; the engine side is the identity (A-duck-wrap), no table
+UN_PLAIN = ["neg", "not", "isNull", "length", "upper", "lower", "abs", "sqrt", "ln", "exp", "sign", "ceil", "floor", "round",
+            "year", "month", "day", "extractYear", "count", "sum", "min", "max", "avg"] + UN_WRAP
 UN = UN_PLAIN + ["cast_" + t for t in CAST_TARGETS]
 BIN = ["add", "sub", "mul", "div", "intdiv", "mod", "pow", "eq", "neq", "lt", "le", "gt", "ge", "and", "or", "dpipe", "like",
-       "coalesce", "nullif", "concat"]
+       "coalesce", "nullif", "concat", "greatest", "least", "corr"]
 TERN = ["caseWhen", "iff"]
+NARY = ["coalesce", "greatest", "least", "caseN"]
 AGG = {"count", "sum", "min", "max", "avg"}
 
 UN_SQL = {
     "neg": "-{a}", "not": "NOT {a}", "isNull": "{a} IS NULL", "length": "LENGTH({A})", "upper": "UPPER({A})",
     "lower": "LOWER({A})", "abs": "ABS({A})", "sqrt": "SQRT({A})", "ln": "LN({A})", "exp": "EXP({A})", "sign": "SIGN({A})", "year": "YEAR({A})", "month": "MONTH({A})", "day": "DAY({A})",
     "extractYear": "EXTRACT(YEAR FROM {a})", "count": "COUNT({A})", "sum": "SUM({A})", "min": "MIN({A})", "max": "MAX({A})",
-    "avg": "AVG({A})", "sumOver": "SUM({A}) OVER ()", "maxOver": "MAX({A}) OVER ()", "countOver": "COUNT({A}) OVER ()",
-    "avgOver": "AVG({A}) OVER ()",
+    "avg": "AVG({A})", "ceil": "CEIL({A})", "floor": "FLOOR({A})", "round": "ROUND({A})",
+    "over": "{A} OVER ()", "filter": "{A} FILTER (WHERE t.bo)",
 }
 for _t in CAST_TARGETS:
     UN_SQL["cast_" + _t] = "CAST({A} AS " + CAST_SQL[_t] + ")"
@@ -80,6 +90,7 @@ BIN_SQL = {
     "eq": "{a} = {b}", "neq": "{a} <> {b}", "lt": "{a} < {b}", "le": "{a} <= {b}", "gt": "{a} > {b}", "ge": "{a} >= {b}",
     "and": "{a} AND {b}", "or": "{a} OR {b}", "dpipe": "{a} || {b}", "like": "{a} LIKE {b}",
     "coalesce": "COALESCE({A}, {B})", "nullif": "NULLIF({A}, {B})", "concat": "CONCAT({A}, {B})",
+    "greatest": "GREATEST({A}, {B})", "least": "LEAST({A}, {B})", "corr": "CORR({A}, {B})",
 }
 TERN_SQL = {"caseWhen": "CASE WHEN {C} THEN {A} ELSE {B} END", "iff": "IF({C}, {A}, {B})"}
 
@@ -89,7 +100,14 @@ STR_LITS = {"other": "'abc'", "num": "'1'", "isoDate": "'2020-01-02'", "isoDatet
 
 
 def is_leaf(e):
-    return e[0] not in ("un", "bin", "tern")
+    return e[0] not in ("un", "bin", "tern", "nary")
+
+
+def render_nary(k, xs):
+    if k == "caseN":
+        return "CASE " + " ".join("WHEN t.bo THEN " + x for x in xs[:-1]) + " ELSE " + xs[-1] + " END" if len(xs) > 1 else \
+            "CASE WHEN t.bo THEN " + xs[0] + " END"
+    return k.upper() + "(" + ", ".join(xs) + ")"
 
 
 def render(e) -> str:
@@ -97,6 +115,8 @@ def render(e) -> str:
     k = e[0]
     if k == "col":
         return "t." + e[1]
+    if k == "colx":  # ["colx", qualifier, name]: unqualified / other-table / unknown column references
+        return (e[1] + "." if e[1] else "") + e[2]
     if k == "int":
         return "1"
     if k == "bigLit":
@@ -124,6 +144,8 @@ def render(e) -> str:
         return BIN_SQL[e[1]].format(a=sub(e[2], True), b=sub(e[3], True), A=sub(e[2], False), B=sub(e[3], False))
     if k == "tern":
         return TERN_SQL[e[1]].format(C=sub(e[2], False), A=sub(e[3], False), B=sub(e[4], False))
+    if k == "nary":
+        return render_nary(e[1], [sub(x, False) for x in e[2:]])
     raise HarnessError(f"render: {e!r}")
 
 
@@ -131,10 +153,12 @@ def to_model(e):
     """expression tree -> the JSON the Lean driver reads (columns carry their model type)"""
     k = e[0]
     if k == "col":
-        return ["col", COLS[e[1]][1]]
+        return ["col", "this", e[1]]
+    if k == "colx":
+        return ["col", {"": "none", "t": "this"}.get(e[1], "other"), e[2].lower()]
     if k == "bigLit":
         return ["int"]
-    if k in ("un", "bin", "tern"):
+    if k in ("un", "bin", "tern", "nary"):
         return [k, e[1]] + [to_model(x) for x in e[2:]]
     return list(e)
 
@@ -281,7 +305,7 @@ def engine_table():
                            "examples": [s for r, s in results if r != "error"][:4]})
         table[key] = acc[0] if acc else "error"
 
-    for op in UN:
+    for op in [o for o in UN if o not in UN_WRAP]:
         for ca in classes:
             res = []
             for a in reps[ca]:
@@ -301,6 +325,44 @@ def engine_table():
                         res.append((ety_of_duck(duck_typeof(s)), s))
                         depth1.append(e)
                 settle(("bin", op, ca, cb), res)
+    # --- n-ary: the pairwise join of branch classes (two string literals stay a string literal), checked as a fold on triples
+    for k in NARY:
+        for ca in classes:
+            for cb in classes:
+                res = []
+                for a in reps[ca][:2]:
+                    for b in reps[cb][:2]:
+                        sql = render(["nary", k, a, b])
+                        res.append((ety_of_duck(duck_typeof(sql)), sql))
+                settle(("join", k, ca, cb), res)
+                if ca == "strlit" and cb == "strlit" and table[("join", k, ca, cb)] == "text":
+                    table[("join", k, ca, cb)] = "strlit"
+
+        def J(a, b):
+            return "error" if "error" in (a, b) else table.get(("join", k, a, b), "error")
+
+        for ca in classes:
+            for cb in classes:
+                for cc in classes:
+                    e = ["nary", k, reps[ca][0], reps[cb][0], reps[cc][0]]
+                    real = ety_of_duck(duck_typeof(render(e)))
+                    model = J(J(ca, cb), cc)
+                    model = "text" if model == "strlit" else model
+                    if real != "error" and model != "error" and real != model:
+                        issues.append({"op": ["nary-fold", k, ca, cb, cc], "classes_seen": [real, model], "examples": [render(e)]})
+                    if not has_raw(e):
+                        depth1.append(e)
+    # --- wrappers: `agg OVER ()` / `agg FILTER (WHERE c)` have the aggregate's own type (A-duck-wrap)
+    for w in UN_WRAP:
+        for agg in sorted(AGG):
+            for ca in classes:
+                for a in reps[ca]:
+                    inner = ["un", agg, a]
+                    e = ["un", w, inner]
+                    t_in, t_out = duck_typeof(render(inner)), duck_typeof(render(e))
+                    if not t_out.startswith("ERR") and ety_of_duck(t_in) != ety_of_duck(t_out):
+                        issues.append({"op": ["wrap", w, agg, ca], "classes_seen": [t_in, t_out], "examples": [render(e)]})
+                    depth1.append(e)
     return table, issues, depth1
 
 
@@ -318,6 +380,9 @@ NODEC_SAMPLES = {
     "ln": ("LN(t.i)", "Ln", lambda n: [n.this]),
     "exp": ("EXP(t.i)", "Exp", lambda n: [n.this]),
     "sign": ("SIGN(t.i)", "Sign", lambda n: [n.this]),
+    "ceil": ("CEIL(t.db)", "Ceil", lambda n: [n.this]),
+    "floor": ("FLOOR(t.db)", "Floor", lambda n: [n.this]),
+    "round": ("ROUND(t.db)", "Round", lambda n: [n.this]),
     "year": ("YEAR(t.da)", "Year", lambda n: [n.this]),
     "month": ("MONTH(t.da)", "Month", lambda n: [n.this]),
     "day": ("DAY(t.da)", "Day", lambda n: [n.this]),
@@ -328,6 +393,7 @@ NODEC_SAMPLES = {
     "max": ("MAX(t.i)", "Max", lambda n: [n.this]),
     "avg": ("AVG(t.i)", "Avg", lambda n: [n.this]),
     "window": ("SUM(t.i) OVER ()", "Window", lambda n: [n.this]),
+    "filter": ("SUM(t.i) FILTER (WHERE t.bo)", "Filter", lambda n: [n.this]),
     "cast": ("CAST(t.i AS BIGINT)", "Cast", lambda n: [n.this]),
     "add": ("t.i + t.bi", "Add", None), "sub": ("t.i - t.bi", "Sub", None), "mul": ("t.i * t.bi", "Mul", None),
     "div": ("t.i / t.bi", "Div", None), "intdiv": ("t.i // t.bi", "IntDiv", None), "mod": ("t.i % t.bi", "Mod", None),
@@ -339,6 +405,9 @@ NODEC_SAMPLES = {
     "coalesce": ("COALESCE(t.i, t.bi)", "Coalesce", lambda n: [n.this] + list(n.expressions)),
     "nullif": ("NULLIF(t.i, t.bi)", "Nullif", None),
     "concat": ("CONCAT(t.v, t.v)", "Concat", lambda n: list(n.expressions)),
+    "greatest": ("GREATEST(t.i, t.bi)", "Greatest", lambda n: [n.this] + list(n.expressions)),
+    "least": ("LEAST(t.i, t.bi)", "Least", lambda n: [n.this] + list(n.expressions)),
+    "corr": ("CORR(t.i, t.bi)", "Corr", None),
     "case": ("CASE WHEN t.bo THEN t.i ELSE t.bi END", "Case",
              lambda n: [n.args["ifs"][0].this, n.args["ifs"][0].args["true"], n.args["default"]]),
     "if_": ("IF(t.bo, t.i, t.bi)", "If", lambda n: [n.this, n.args["true"], n.args["false"]]),
@@ -598,13 +667,15 @@ def translate(chk: Check, table) -> str:
         w("  | " + ", ".join(["_"] * arity) + " => .error")
         w("")
 
-    for op in UN:
+    for op in [o for o in UN if o not in UN_WRAP]:
         emit("duckUn_" + op, [((ca,), table[("un", op, ca)]) for ca in ETY if ("un", op, ca) in table], 1)
+    for k in NARY:
+        emit("duckJoin_" + k, [((ca, cb), table[("join", k, ca, cb)]) for ca in ETY for cb in ETY if ("join", k, ca, cb) in table], 2)
     for op in BIN + TERN:
         emit("duckBin_" + op, [((ca, cb), table[("bin", op, ca, cb)]) for ca in ETY for cb in ETY if ("bin", op, ca, cb) in table], 2)
     w("def duckUn : UnK → ETy → ETy")
     for op in UN_PLAIN:
-        w(f"  | .{op} => duckUn_{op}")
+        w(f"  | .{op} => duckUn_{op}" if op not in UN_WRAP else f"  | .{op} => fun e => e")
     for t in CAST_TARGETS:
         w(f"  | .cast .{t} => duckUn_cast_{t}")
     w("  | .cast _ => fun _ => .error")
@@ -616,6 +687,10 @@ def translate(chk: Check, table) -> str:
     w("def duckTern : TernK → ETy → ETy → ETy")
     for op in TERN:
         w(f"  | .{op} => duckBin_{op}")
+    w("")
+    w("def duckJoin : NaryK → ETy → ETy → ETy")
+    for k in NARY:
+        w(f"  | .{k} => duckJoin_{k}")
     w("")
     w("def duckCol : Ty → ETy")
     seen = set()
@@ -638,6 +713,7 @@ def translate(chk: Check, table) -> str:
     w("  duckUn := duckUn")
     w("  duckBin := duckBin")
     w("  duckTern := duckTern")
+    w("  duckJoin := duckJoin")
     w("  duckCol := duckCol")
     w("")
     w("end SqlglotModel.Generated.C16")
@@ -736,6 +812,15 @@ def minimise(e):
             if verdict(x):
                 e, v, changed = x, verdict(x), True
                 break
+    # an n-ary node: drop branches while the verdict is unchanged
+    if e[0] == "nary":
+        i = 2
+        while len(e) > 4 and i < len(e):
+            cand = e[:i] + e[i + 1:]
+            if verdict(cand) == v:
+                e = cand
+            else:
+                i += 1
     # children agree: replace each compound child by a column of the same type when the verdict is unchanged
     for i in range(2, len(e)):
         if not is_leaf(e) and not is_leaf(e[i]):
@@ -818,7 +903,11 @@ def gen_expr(rng, depth, want=None, agg="none"):
         return leaf()
     r = rng.random()
     if r < 0.16:  # branches
-        k = rng.choice(["caseWhen", "iff", "coalesce", "coalesce", "nullif"])
+        if rng.random() < 0.45:
+            n = rng.choice([1, 2, 3, 3, 4, 5, 6])
+            args = [sub(want if rng.random() < 0.8 else rng.choice(["integer", "decimal", "text", "null"])) for _ in range(n)]
+            return ["nary", rng.choice(NARY)] + args
+        k = rng.choice(["caseWhen", "iff", "coalesce", "coalesce", "nullif", "greatest", "least"])
         a, b = sub(want), sub(want if rng.random() < 0.8 else rng.choice(["integer", "decimal", "text", "null"]))
         if k in ("caseWhen", "iff"):
             return ["tern", k, sub("boolean"), a, b]
@@ -830,12 +919,13 @@ def gen_expr(rng, depth, want=None, agg="none"):
             src = rng.choice(["integer", "decimal", "text", want])
             return ["un", "cast_" + rng.choice(t), sub(src)]
     if r < 0.30 and agg == "window" and want in ("integer", "decimal", "date", "text", "timestamp"):
-        f = rng.choice(["sumOver", "maxOver", "countOver", "avgOver"])
-        if f == "countOver":
-            return ["un", f, sub(rng.choice(["integer", "text", "date"]), depth - 1, "none")] if want == "integer" else leaf()
-        if f in ("sumOver", "avgOver") and want not in ("integer", "decimal"):
-            f = "maxOver"
-        return ["un", f, sub(want, depth - 1, "none")]
+        f = rng.choice(["sum", "max", "min", "count", "avg"])
+        wrap = rng.choice(UN_WRAP)
+        if f == "count":
+            return ["un", wrap, ["un", f, sub(rng.choice(["integer", "text", "date"]), depth - 1, "none")]] if want == "integer" else leaf()
+        if f in ("sum", "avg") and want not in ("integer", "decimal"):
+            f = "max"
+        return ["un", wrap, ["un", f, sub(want, depth - 1, "none")]]
     if want == "boolean":
         k = rng.choice(["cmp", "cmp", "and", "or", "not", "isNull", "like"])
         if k == "cmp":
@@ -860,13 +950,15 @@ def gen_expr(rng, depth, want=None, agg="none"):
                 return ["bin", "sub", sub("date"), sub("date")]
             return ["bin", op, a, b]
         if k in ("neg", "abs"):
-            return ["un", k, sub(want)]
+            return ["un", rng.choice([k, k, "ceil", "floor", "round"]), sub(want)]
         if want == "integer":
             f = rng.choice(["length", "year", "month", "day", "extractYear", "sign"])
             if f == "sign":
                 return ["un", f, sub(rng.choice(["integer", "decimal"]))]
             return ["un", f, sub("text" if f == "length" else rng.choice(["date", "timestamp"]))]
         if rng.random() < 0.5:
+            if agg == "must" and rng.random() < 0.3:
+                return ["bin", "corr", gen_expr(rng, 1, rng.choice(["integer", "decimal"]), "none"), gen_expr(rng, 1, "decimal", "none")]
             return ["un", rng.choice(["sqrt", "ln", "exp"]), sub(rng.choice(["integer", "decimal"]))]
         return ["bin", rng.choice(["div", "pow"]), sub("integer"), sub("integer")]
     if want == "text":
@@ -943,6 +1035,67 @@ def random_exprs(chk: Check, n: int):
 
 
 # ------------------------------------------------------------------------------------------ correspondence
+def nary_probe_exprs():
+    """n-ary forms whose class is decided by ONE branch at every position (3 to 6 branches): an edit that drops, truncates or
+    reorders the branches `_annotate_by_args` looks at changes the inferred class of one of them"""
+    out = []
+    fills = [(["col", "ti"], ["col", "db"]), (["null"], ["col", "da"]), (["int"], ["dec"]), (["col", "i"], ["dec"]), (["null"], ["col", "v"])]
+    for k in NARY:
+        for n in (3, 4, 5, 6):
+            for pos in range(n):
+                for lo, hi in fills:
+                    args = [list(lo) for _ in range(n)]
+                    args[pos] = list(hi)
+                    out.append(["nary", k] + args)
+    return out
+
+
+def has_colx(e):
+    return e[0] == "colx" or (not is_leaf(e) and any(has_colx(x) for x in e[2:]))
+
+
+def column_reference_exprs(chk: Check):
+    """the scope / column part: qualified, unqualified, other-table, unknown and upper-case column references, bare and inside
+    operators (model: Model/Types.lean `annotCol` — only a column qualified with the table takes the schema's type)"""
+    out = []
+    for c in COLS:
+        for q, name in (("", c), ("t", c.upper()), ("u", c), ("t", c + "zz")):
+            x = ["colx", q, name]
+            out += [x, ["bin", "add", x, ["int"]], ["bin", "coalesce", x, ["col", c]], ["un", "isNull", x],
+                    ["nary", "coalesce", ["col", c], x, ["null"]]]
+    return out
+
+
+def decimal_grid(chk: Check):
+    """(op, p1, s1, p2, s2, what the real annotate_types puts on `<left> op <right>`): left/right are CAST(t.i AS DECIMAL(p, s)) or,
+    for p = None, the INT column itself. Also records how DuckDB's own DECIMAL(p, s) differs (class-level property: not a violation)."""
+    S = sg()
+    cases = []
+    differs = []
+    grid = [(18, 3), (10, 2), (5, 1), (38, 10), (20, 5), (4, 0), (None, None)]
+    for op in ("+", "-", "*", "/", "%"):
+        for p1, s1 in grid:
+            for p2, s2 in grid:
+                if p1 is None and p2 is None:
+                    continue
+                l = f"CAST(t.i AS DECIMAL({p1}, {s1}))" if p1 is not None else "t.i"
+                r = f"CAST(t.i AS DECIMAL({p2}, {s2}))" if p2 is not None else "t.i"
+                sql = f"{l} {op} {r}"
+                ast = S["sqlglot"].parse_one(f"SELECT {sql} AS x FROM t", dialect="duckdb")
+                ty = S["annotate_types"](ast, schema=S["schema"], dialect="duckdb").selects[0].type
+                ps = [x.name for x in ty.expressions] if ty is not None else []
+                real = ",".join(ps) if ps else "none"
+                cases.append((op, p1, s1, p2, s2, real))
+                d = duck_typeof(sql)
+                if ety_of_duck(d) not in ("decimal", "double", "error"):
+                    chk.broken.append({"kind": "assumption", "what": f"A-duck: DECIMAL arithmetic `{sql}` is typed {d} by DuckDB"})
+                if d.startswith("DECIMAL") and real != "none" and d.replace(" ", "") != f"DECIMAL({real})" and len(differs) < 4:
+                    differs.append({"sql": sql, "sqlglot": f"DECIMAL({real})", "duckdb": d})
+    chk.cov["decimal_parameters"] = {"cases": len(cases), "precision_scale_differs_from_duckdb_examples": differs,
+                                     "note": "sqlglot never computes a precision/scale (theorem decimal_params_never_computed); the property compares classes"}
+    return cases
+
+
 def correspond(chk: Check, depth1: list) -> list:
     """model vs implementation: (a) `annotFinal` vs the real annotate_types root type, (b) `eng` vs the real DuckDB typeof
     (compositionality of A-duck on nested expressions). Returns the disagreeing expressions (search hints)."""
@@ -951,9 +1104,28 @@ def correspond(chk: Check, depth1: list) -> list:
     n1 = chk.pick(2500, len(d1))
     if n1 < len(d1):
         d1 = rng.sample(d1, n1)
-    exprs = d1 + random_exprs(chk, chk.pick(1500, 20000))
-    lines = [json.dumps(to_model(e)) for e in exprs]
-    got = chk.driver("C16", lines)
+    exprs = d1 + random_exprs(chk, chk.pick(1500, 20000)) + column_reference_exprs(chk) + nary_probe_exprs()
+    schema_line = json.dumps({"schema": [[c, t] for c, (_, t) in COLS.items()]})
+    dec_cases = decimal_grid(chk)
+    lines = [schema_line] + [json.dumps(to_model(e)) for e in exprs] + [json.dumps({"census": True})] + \
+        [json.dumps({"dec": [op == "/", p1, s1, p2, s2]}) for op, p1, s1, p2, s2, _ in dec_cases]
+    out = chk.driver("C16", lines)
+    if out[0] != "ok":
+        raise HarnessError(f"driver rejected the schema: {out[0]!r}")
+    got = out[1:1 + len(exprs)]
+    census = json.loads(out[1 + len(exprs)])
+    chk.cov["depth1_census"] = {
+        "what": "operator x typed operand summaries x compatible engine classes accepted by the engine table; 'agree' = proved to "
+                "agree (in no family), the named families = proved to disagree (known findings); nothing is left undecided "
+                "(theorems un/bin/tern_table_exact)",
+        **census,
+        "totals": {"accepted": sum(census[a]["accepted"] for a in census), "proved_agree": sum(census[a].get("agree", 0) for a in census),
+                   "proved_disagree": sum(census[a]["accepted"] - census[a].get("agree", 0) for a in census), "unknown": 0}}
+    dec_out = out[2 + len(exprs):]
+    for (op, p1, s1, p2, s2, real), m in zip(dec_cases, dec_out):
+        if real != m:
+            chk.correspondence_broken("DECIMAL parameters annotated on an arithmetic result vs Model/Types.lean sgDecArith",
+                                      {"op": op, "left": [p1, s1], "right": [p2, s2], "impl": real, "model": m})
     hints = []
     wf_n = acc_n = eng_checked = eng_model_error = 0
     for e, g in zip(exprs, got):
@@ -967,24 +1139,30 @@ def correspond(chk: Check, depth1: list) -> list:
         accepted = not r["duck"].startswith("ERR")
         chk.case(("corr", r["sql"]), nontrivial=not is_leaf(e), sample={"sql": r["sql"], "sqlglot": r["sg"], "duckdb": r["duck"],
                                                                          "model": g} if len(chk.samples) < 6 and accepted and not is_leaf(e) else None)
+        scoped = not has_colx(e)
         if real_ty != m_final:
             chk.correspondence_broken("annotate_types root type vs Model/Types.lean annotFinal",
                                       {"sql": r["sql"], "expr": e, "impl": r["sg"] + ("(p,s)" if r["param"] else ""), "model": m_final})
             hints.append(e)
-        if accepted:
+        if accepted and scoped:
             acc_n += 1
             real_ety = ety_of_duck(r["duck"])
             if m_eng == "error":
                 eng_model_error += 1
             else:
                 eng_checked += 1
-                if real_ety != ("text" if m_eng == "strlit" else m_eng):
+                m_cmp = "text" if m_eng == "strlit" else m_eng
+                if real_ety == "double" and m_cmp == "decimal":
+                    # DuckDB falls back to DOUBLE when a DECIMAL result would need more than 38 digits: same class
+                    chk.count("corr:decimal-overflow-to-double")
+                    m_cmp = real_ety
+                if real_ety != m_cmp:
                     chk.correspondence_broken("assumption A-duck: DuckDB typeof vs the class-level engine table composed over the expression",
                                               {"sql": r["sql"], "expr": e, "duckdb": r["duck"], "model_eng": m_eng})
                     hints.append(e)
             if m_wf == "true":
                 wf_n += 1
-                if real_ty == m_final and real_ety == ("text" if m_eng == "strlit" else m_eng) and verdict(e):
+                if real_ty == m_final and real_ety == m_cmp and verdict(e):
                     # cannot happen while theorem + correspondence hold; kept as an internal consistency check
                     raise HarnessError(f"well-formed expression disagrees although model and both real sides correspond: {r['sql']}")
     chk.corr_cases += len(exprs)
@@ -1017,6 +1195,8 @@ def search(chk: Check, depth1: list, hints: list, budget_s: float) -> None:
 
     for e in WITNESSES + list(hints):
         one(e, "witness/hint")
+    for e in nary_probe_exprs():
+        one(e, "n-ary probes")
     sweep(chk)
     for e in d1:
         one(e, "depth-1 exhaustive over representatives")
